@@ -14,13 +14,14 @@ git -C "$WT" checkout -q -- . ; git -C "$WT" checkout -q --detach "$(git -C /rep
 if [ ! -f "$WT/_build_tests/build.ninja" ]; then
   cmake -G Ninja -S "$WT" -B "$WT/_build_tests" -DBUILD_TESTING=ON -DCMAKE_BUILD_TYPE=RelWithDebInfo -DCMAKE_CXX_FLAGS=-Wno-error > "$WT/_cfg.log" 2>&1 || { echo "configure failed"; exit 3; }
 fi
-# demo build command: first line mentioning a compiler in the head of demo.cpp
-CMD="$(head -30 "$D/demo.cpp" | grep -m1 -E '(g\+\+|clang\+\+) ' | sed -E 's#^[ /*]*##; s#\*/ *$##; s#^(build|Build|compile|Compile|Build/run|build/run)[^:]*: *##')"
+# demo build command: first compiler invocation in the head of demo.cpp (comment markers stripped, continuation
+# lines joined); include paths are rewritten to this worktree
+CMD="$(head -60 "$D/demo.cpp" | sed -E 's#^[ \t]*(//|\*|/\*)+ ?##' | sed -e ':a' -e '/\\$/N; s/\\\n//; ta' | grep -m1 -E '(^|[ :])(g\+\+|clang\+\+)(-[0-9]+)? ' | sed -E 's#^.*(g\+\+|clang\+\+)#\1#')"
 [ -n "$ORIG" ] && CMD="${CMD//$ORIG/$WT}"
-CMD="$(echo "$CMD" | sed -E "s#/tmp/wt_[a-z0-9]+(/_[a-z0-9_]+/[0-9]+)?/(include|external)#$WT/\2#g")"
-CMD="${CMD%%&&*}"
+CMD="$(echo "$CMD" | sed -E "s#-I *[^ ]*/(include|external/tl)( |\$)#-I$WT/\1 #g")"
+CMD="${CMD%%&&*}"; CMD="${CMD%%;*}"
 build_demo() { # $1 = output binary
-  local c; c="$(echo "$CMD" | sed -E "s#(^| )(\./)?demo\.cpp#\1$D/demo.cpp#; s#-o +[^ ]+#-o $1#")"
+  local c; c="$(echo "$CMD" | sed -E "s#(^| )[^ ]*demo\.cpp#\1$D/demo.cpp#; s#-o +[^ ]+#-o $1#")"
   echo "$c" | grep -q -- "-o " || c="$c -o $1"
   ( cd "$D" && eval "$c" ) > "$1.build.log" 2>&1
 }
@@ -28,11 +29,17 @@ run_demo() { ( cd "$D" && timeout 600 "$1" ) > "$1.out" 2>&1; echo $?; }
 
 git -C "$WT" apply "$D/patch.diff" || { echo "patch does not apply"; exit 3; }
 t0=$(date +%s)
+if [ -n "${DEMO_ONLY:-}" ] && [ -f "$D/verify.json" ]; then
+  BUILD_RC=$(python3 -c "import json;print(json.load(open('$D/verify.json'))['test_suite_build_rc'])")
+  TEST_RC=$(python3 -c "import json;print(json.load(open('$D/verify.json'))['test_suite_rc'])")
+  TESTS=$(python3 -c "import json;print(json.load(open('$D/verify.json'))['test_suite_summary'])")
+else
 cmake --build "$WT/_build_tests" -j"$JOBS" > "$WT/_build.log" 2>&1; BUILD_RC=$?
 TEST_RC=-1; TESTS=""
 if [ $BUILD_RC -eq 0 ]; then
   ctest --test-dir "$WT/_build_tests" -j"$JOBS" --timeout 900 > "$WT/_ctest.log" 2>&1; TEST_RC=$?
   TESTS="$(grep -E 'tests passed|tests failed' "$WT/_ctest.log" | tail -1)"
+fi
 fi
 build_demo "$WT/_demo_with"; DW_B=$?; DW=-1; [ $DW_B -eq 0 ] && DW=$(run_demo "$WT/_demo_with")
 git -C "$WT" checkout -q -- .
